@@ -560,12 +560,12 @@ func Spec() *mon.Spec {
 			"an evaluation that does not return is judged inside the case: interrupted + every goroutine blocked in two identical censuses 1 s apart = violation; otherwise inconclusive",
 		},
 		Phases: []mon.Phase{
-			{Name: "sync", Quick: 960, Thorough: 32000, Run: runSync, GoMaxProcs: 16, Timeout: 150 * time.Second, Batch: 8},
-			{Name: "async", Quick: 480, Thorough: 16000, Run: runAsync, GoMaxProcs: 16, Timeout: 150 * time.Second, Batch: 8},
+			{Name: "sync", Quick: 320, Thorough: 32000, Run: runSync, GoMaxProcs: 16, Timeout: 150 * time.Second, Batch: 16},
+			{Name: "async", Quick: 160, Thorough: 16000, Run: runAsync, GoMaxProcs: 16, Timeout: 150 * time.Second, Batch: 16},
 		},
 		HangViolation: true,
-		Floors: map[string]int{"distinct_nontrivial": 200, "sync_cancels_delivered": 120, "runs_interrupted": 300, "steps": 2500,
-			"cancel_positions": 200, "runs_with_events_after_interrupt": 120, "feature_peach-go": 100, "feature_peach-lambda": 50, "feature_sleepy": 50,
-			"feature_pipeline": 60, "feature_run-parallel": 40, "feature_try-finally": 50, "concurrency_seen_in_bounded_peach": 2},
+		Floors: map[string]int{"distinct_nontrivial": 60, "sync_cancels_delivered": 40, "runs_interrupted": 90, "steps": 700,
+			"cancel_positions": 60, "runs_with_events_after_interrupt": 40, "feature_peach-go": 16, "feature_peach-lambda": 8, "feature_sleepy": 8,
+			"feature_pipeline": 8, "feature_run-parallel": 8, "feature_try-finally": 8, "concurrency_seen_in_bounded_peach": 2},
 	}
 }
